@@ -50,6 +50,8 @@ type vzOracles struct {
 
 	// C10: what was durable when a node crashed, per node index
 	crashSnap map[int]*vzCrashSnap
+	smEntered map[string][2]uint64                  // node incarnation -> height/round of the state machine's last round entrance seen by the kernel
+	smKnown   map[string]map[string]bool            // node incarnation/height/round -> votes the state machine has been handed for that round
 	offered   map[int]map[[2]uint64]map[string]bool // node -> round -> proposals offered to the strategy (current incarnation)
 }
 
@@ -113,6 +115,8 @@ func (o *vzOracles) init(w *vzWorld) {
 	o.lastView = map[string]vzViewDigest{}
 	o.advChain = map[uint64]string{}
 	o.crashSnap = map[int]*vzCrashSnap{}
+	o.smEntered = map[string][2]uint64{}
+	o.smKnown = map[string]map[string]bool{}
 	o.offered = map[int]map[[2]uint64]map[string]bool{}
 }
 
@@ -363,6 +367,29 @@ func (o *vzOracles) onEnterRound(nd *vzNode, rv tmconsensus.RoundView) {
 	defer o.mu.Unlock()
 	if !nd.byz {
 		o.checkViewValidators(nd, "strategy.EnterRound", rv.Height, rv.ValidatorSet)
+		// the round view the state machine entered the round with (the mirror's answer to its entrance)
+		o.noteSMKnown(nd, rv.Height, rv.Round, rv.PrevoteProofs, rv.PrecommitProofs)
+	}
+}
+
+func (o *vzOracles) noteSMKnown(nd *vzNode, h uint64, r uint32, pv, pc map[string]gcrypto.CommonMessageSignatureProof) {
+	if !o.on["C11"] {
+		return
+	}
+	key := fmt.Sprintf("%s/%d/%d", nd.ident(), h, r)
+	m := o.smKnown[key]
+	if m == nil {
+		m = map[string]bool{}
+		o.smKnown[key] = m
+	}
+	var bs bitset.BitSet
+	for kind, pm := range map[string]map[string]gcrypto.CommonMessageSignatureProof{"prevote": pv, "precommit": pc} {
+		for hash, p := range pm {
+			p.SignatureBitSet(&bs)
+			for u, ok := bs.NextSet(0); ok; u, ok = bs.NextSet(u + 1) {
+				m[fmt.Sprintf("%s/%x/%d", kind, hash, u)] = true
+			}
+		}
 	}
 }
 func (o *vzOracles) onTimerStart(nd *vzNode, kind string, h uint64, r uint32)  {}
@@ -466,9 +493,18 @@ func (o *vzOracles) onSMView(nd *vzNode, v tmeil.StateMachineRoundView) {
 	}
 	if v.VRV.Height > 0 {
 		o.checkView(nd, "statemachine", &v.VRV)
+		o.noteSMKnown(nd, v.VRV.Height, v.VRV.Round, v.VRV.PrevoteProofs, v.VRV.PrecommitProofs)
 	}
 	if v.JumpAheadRoundView != nil {
 		o.checkView(nd, "statemachine-jump", v.JumpAheadRoundView)
+		// A jump-ahead tells the state machine to move on to a later round. The mirror drops a pending
+		// one when the state machine enters a round by itself, so the round named is always beyond the
+		// round of the state machine's last entrance.
+		if e, ok := o.smEntered[nd.ident()]; ok && o.on["C11"] {
+			if j := v.JumpAheadRoundView; j.Height < e[0] || (j.Height == e[0] && uint64(j.Round) <= e[1]) {
+				o.violate("C11", "stale-jump-ahead", "%s: the state machine, which had entered round %d/%d, was then sent a jump-ahead to round %d/%d (version %d)", nd.ident(), e[0], e[1], j.Height, j.Round, j.Version)
+			}
+		}
 	}
 	if v.CH != nil {
 		o.checkCommitCertificate(nd, "statemachine-committed-header", v.CH.Header, v.CH.Proof)
@@ -514,6 +550,7 @@ func (o *vzOracles) onRoundEntrance(nd *vzNode, re tmeil.StateMachineRoundEntran
 	if d.enteredRound == nil {
 		d.enteredRound = map[uint64]uint32{}
 	}
+	o.smEntered[nd.ident()] = [2]uint64{re.H, uint64(re.R)}
 	prev, seen := d.enteredRound[re.H]
 	if !seen && re.R != 0 {
 		key, prop := "height-first-entered-at-round-above-zero", "C08"
@@ -1137,6 +1174,34 @@ func (o *vzOracles) checkRejectedReplaysLeftNoTrace(nd *vzNode) {
 	}
 }
 
+// checkPositionInStep (C04, C10): once nothing is left to run, the persisted mirror position names the
+// highest committed header as its committing height and the height above it as its voting height.
+func (o *vzOracles) checkPositionInStep(nd *vzNode) {
+	if !(o.on["C04"] || o.on["C10"]) {
+		return
+	}
+	o.mu.Lock()
+	defer o.mu.Unlock()
+	d := nd.disk
+	top := uint64(0)
+	for h := range d.commits {
+		if h > top {
+			top = h
+		}
+	}
+	if top == 0 || len(d.nhr) == 0 {
+		return
+	}
+	l := d.nhr[len(d.nhr)-1]
+	if l[2] != top || l[0] != top+1 {
+		for _, p := range []string{"C04", "C10"} {
+			if o.on[p] {
+				o.violate(p, "position-out-of-step-with-committed-chain", "%s: nothing is left to run; the committed header store reaches height %d but the persisted position is voting %d/%d committing %d/%d", nd.ident(), top, l[0], l[1], l[2], l[3])
+			}
+		}
+	}
+}
+
 func (o *vzOracles) checkStoredHeadersIntact(nd *vzNode) {
 	if !o.on["C04"] && !o.on["C10"] && !o.on["C01"] {
 		return
@@ -1166,7 +1231,8 @@ func (o *vzOracles) checkConsumersCurrent(nd *vzNode, voting, committing *tmcons
 	}
 	o.mu.Lock()
 	defer o.mu.Unlock()
-	for name, kv := range map[string]*tmconsensus.VersionedRoundView{"voting": voting, "committing": committing} {
+	for i, kv := range []*tmconsensus.VersionedRoundView{voting, committing} {
+		name := []string{"voting", "committing"}[i]
 		if kv == nil || kv.Height == 0 {
 			continue
 		}
@@ -1178,17 +1244,39 @@ func (o *vzOracles) checkConsumersCurrent(nd *vzNode, voting, committing *tmcons
 				last, cname, found = l, cn, true
 			}
 		}
-		for found {
+		var held []string // the votes in the kernel's own view
+		{
 			var bs bitset.BitSet
-			missing := ""
 			for kind, m := range map[string]map[string]gcrypto.CommonMessageSignatureProof{"prevote": kv.PrevoteProofs, "precommit": kv.PrecommitProofs} {
 				for hash, p := range m {
 					p.SignatureBitSet(&bs)
 					for u, ok := bs.NextSet(0); ok; u, ok = bs.NextSet(u + 1) {
-						if k := fmt.Sprintf("%s/%x/%d", kind, hash, u); !last.votes[k] && missing == "" {
-							missing = k
-						}
+						held = append(held, fmt.Sprintf("%s/%x/%d", kind, hash, u))
 					}
+				}
+			}
+			sort.Strings(held)
+		}
+		// The state machine is entitled to the view of the round it is in while that round is the
+		// mirror's voting or committing round. What it holds is what it entered the round with plus
+		// every update since.
+		o.w.mu.Lock()
+		smH, smR := nd.curH, nd.curR
+		o.w.mu.Unlock()
+		if known, ok := o.smKnown[fmt.Sprintf("%s/%d/%d", nd.ident(), kv.Height, kv.Round)]; ok && smH == kv.Height && smR == kv.Round {
+			for _, k := range held {
+				if !known[k] {
+					o.violate("C11", "consumer-not-current/statemachine", "%s: inputs have stopped; the kernel's %s view %d/%d (version %d) holds vote %s that the state machine, which is in that round, has never been handed", nd.ident(), name, kv.Height, kv.Round, kv.Version, k)
+					break
+				}
+			}
+		}
+		for found {
+			missing := ""
+			for _, k := range held {
+				if !last.votes[k] {
+					missing = k
+					break
 				}
 			}
 			if missing != "" {
